@@ -50,7 +50,7 @@ class Insert(ASTNode):
         ind1 = indent(level + 1)
         ind2 = indent(level + 2)
         if self.columns is not None:
-            columns_str = ', '.join([i.name for i in self.columns])
+            columns_str = ', '.join([str(i.name) for i in self.columns])
         else:
             columns_str = ''
 
@@ -78,7 +78,7 @@ class Insert(ASTNode):
 
     def get_string(self, *args, **kwargs):
         if self.columns is not None:
-            cols = ', '.join([i.name for i in self.columns])
+            cols = ', '.join([str(i.name) for i in self.columns])
             columns_str = f'({cols})'
         else:
             columns_str = ''
